@@ -67,18 +67,153 @@ theorem lines_partition (file : Bytes) :
   refine ⟨by simpa [lines] using linesGo_flatten file [], linesGo_nonempty file [], ?_⟩
   exact linesGo_shape file [] (by intro b hb; cases hb)
 
-/-- **Output = concatenation, per line, per sentence, of the formatted library result**: in the
-default mode a line whose stripped text splits into sentences `ss` prints the formats of the
-tokenisations of `ss` in order; with sentence splitting off it prints the format of the whole line. -/
-theorem line_output (lib : Lib) (f : Flags) (text : Bytes) :
-    (f.split = .none → analyzeLine lib f text = (lib.tokenize text).map (format f)) ∧
-    (f.split = .default → ∀ ss, lib.split text = some ss →
-      analyzeLine lib f text = allSomeB (ss.map (fun s => (lib.tokenize s).map (format f)))) ∧
-    (f.split = .only → analyzeLine lib f text = (lib.split text).map List.flatten) := by
+/-- **Output of one line = per sentence, the formatted library result** (all texts accepted): in the default mode a
+line whose stripped text splits into sentences `ss` makes the writer receive the formats of the tokenisations of `ss`
+in order; with sentence splitting off the format of the whole line; with `only` the sentences themselves, unseparated. -/
+theorem line_output (lib : Lib) (f : Flags) (text : Bytes) (h : ∀ s ∈ unitsOf lib f text, Accepts lib s) :
+    (analyzeLine lib f text).outs = specLine lib f text ∧ (analyzeLine lib f text).exit = .ok ∧
+    (f.split = .none → specLine lib f text = fmtRes f (lib.tokenize subsetAll text)) ∧
+    (f.split = .default → specLine lib f text = ((lib.split text).map (fun s => fmtRes f (lib.tokenize subsetAll s))).flatten) ∧
+    (f.split = .only → specLine lib f text = (lib.split text).flatten) := by
+  rw [analyzeLine_ok lib f text h]
+  refine ⟨rfl, rfl, ?_, ?_, ?_⟩ <;> intro hs <;> simp [specLine, unitsOf, hs]
+
+/-- **END TO END: what the tool delivers is exactly the formatted library morphemes, per line, per sentence**
+(`cli_output_is_library_output`).  For every library behaviour, every flag combination (format, `-a`, split mode, `-d`,
+`-o`), every input (file or stdin: the model does not distinguish them) in which the library accepts every text handed
+to it: the process exits 0; with `-o` the file holds exactly `spec` = the concatenation over the lines read, over the
+sentences of the stripped line, of `format (tokenize ALL-FIELDS sentence)` and stdout holds only the debug dumps (nothing
+without `-d`); without `-o` stdout holds, line by line, the dumps of the line followed by `spec` of the line — so without
+`-d` stdout is exactly `spec`.  The analysis runs with `InfoSubset::all()`: `SudachiOutput::subset()` is dead code. -/
+theorem cli_output_is_library_output (lib : Lib) (f : Flags) (outOk : Bool) (file : Bytes)
+    (hout : f.toFile = true → outOk = true)
+    (hacc : ∀ l ∈ lines file, ∀ s ∈ unitsOf lib f (stripEol f.strip l), Accepts lib s) :
+    let spec := ((lines file).map (fun l => specLine lib f (stripEol f.strip l))).flatten
+    let r := run lib f true outOk file
+    r.exit = .ok ∧
+    (f.toFile = true → r.file = some spec ∧
+      r.stdout = ((lines file).map (fun l => dumpsLine lib f (stripEol f.strip l))).flatten) ∧
+    (f.toFile = false → r.file = none ∧
+      r.stdout = ((lines file).map (fun l => dumpsLine lib f (stripEol f.strip l) ++ specLine lib f (stripEol f.strip l))).flatten) ∧
+    (f.toFile = false → f.debug = false → r.stdout = spec) ∧
+    (f.debug = false → ∀ l, dumpsLine lib f l = []) := by
+  intro spec r
+  have hrun := runLines_ok lib f (lines file) hacc
+  have hexit : exitOf (runLines lib f (lines file)) = .ok := by
+    apply exitOf_all_ok; rw [hrun]; intro e he; simp only [List.mem_map] at he; obtain ⟨_, _, rfl⟩ := he; rfl
+  have hd : f.debug = false → ∀ l, dumpsLine lib f l = [] := by intro h l; simp [dumpsLine, h]
+  cases htf : f.toFile with
+  | true =>
+    have ho := hout htf
+    refine ⟨?_, ?_, ?_, ?_, hd⟩
+    · simp [r, run, htf, ho, hexit]
+    · intro _; simp [r, run, htf, ho, hrun, spec, List.map_map, Function.comp_def]
+    · intro h; cases h
+    · intro h; cases h
+  | false =>
+    refine ⟨?_, ?_, ?_, ?_, hd⟩
+    · simp [r, run, htf, hexit]
+    · intro h; cases h
+    · intro _; simp [r, run, htf, hrun, List.map_map, Function.comp_def]
+    · intro _ hdb; simp [r, run, htf, hrun, spec, List.map_map, Function.comp_def, hd hdb]
+
+/-- **A text the library rejects stops the tool** (e.g. a line above 49 149 bytes with `--split-sentences=none`, or one
+of its sentences otherwise): if the lines `pre` are accepted and the next line `l` has accepted sentences `us1` followed
+by a rejected sentence `s`, the process exits with the panic status (101), the writer has received exactly the results
+of `pre` and of `us1` (flushed by the `BufWriter`'s drop), and nothing that follows — neither the rest of the line nor
+the remaining lines `post` — is analysed: the outcome is the same for every `post`. -/
+theorem cli_stops_at_first_error (lib : Lib) (f : Flags) (file : Bytes) (pre post : List Bytes) (l s d : Bytes) (us1 us2 : List Bytes)
+    (hlines : lines file = pre ++ l :: post) (hsplit : f.split = .default)
+    (hpre : ∀ x ∈ pre, ∀ u ∈ unitsOf lib f (stripEol f.strip x), Accepts lib u)
+    (hunits : lib.split (stripEol f.strip l) = us1 ++ s :: us2) (hus1 : ∀ u ∈ us1, Accepts lib u)
+    (hs : lib.tokenize subsetAll s = .err d) (htf : f.toFile = false) (hdb : f.debug = false) :
+    let r := run lib f true true file
+    r.exit = .panic ∧
+    r.stdout = (pre.map (fun x => specLine lib f (stripEol f.strip x))).flatten ++
+      (us1.map (fun u => fmtRes f (lib.tokenize subsetAll u))).flatten := by
+  intro r
+  have hse := analyzeSents_err lib f s d us2 hs us1 hus1
+  have hline : (analyzeLine lib f (stripEol f.strip l)).exit = .panic ∧
+      (analyzeLine lib f (stripEol f.strip l)).outs = (us1.map (fun u => fmtRes f (lib.tokenize subsetAll u))).flatten := by
+    simp only [analyzeLine, hsplit, hunits]; exact ⟨hse.2, hse.1⟩
+  have hne : (analyzeLine lib f (stripEol f.strip l)).exit ≠ .ok := by rw [hline.1]; decide
+  have hrun := runLines_err lib f l post hne pre hpre
+  have hdl : ∀ t, (analyzeLine lib f t).dumps = [] := by
+    intro t
+    have h1 : ∀ u, (analyzeOne lib f u).dumps = [] := by
+      intro u; unfold analyzeOne; cases lib.tokenize (cliSubset f) u <;> simp [hdb]
+    have h2 : ∀ ss, (analyzeSents lib f ss).dumps = [] := by
+      intro ss; induction ss with
+      | nil => rfl
+      | cons a rest ih => simp only [analyzeSents]; split <;> simp [h1, ih]
+    unfold analyzeLine; cases f.split <;> simp [h1, h2]
+  have hd0 : ∀ t, dumpsLine lib f t = [] := by intro t; simp [dumpsLine, hdb]
+  refine ⟨?_, ?_⟩
+  · simp [r, run, htf, hlines, hrun, exitOf_append_single, hline.1]
+  · simp [r, run, htf, hlines, hrun, List.map_map, Function.comp_def, hd0, hdl, hline.2]
+
+/-- the same with sentence splitting off: the rejected line itself ends the run -/
+theorem cli_stops_at_first_error_nosplit (lib : Lib) (f : Flags) (file : Bytes) (pre post : List Bytes) (l d : Bytes)
+    (hlines : lines file = pre ++ l :: post) (hsplit : f.split = .none)
+    (hpre : ∀ x ∈ pre, ∀ u ∈ unitsOf lib f (stripEol f.strip x), Accepts lib u)
+    (hs : lib.tokenize subsetAll (stripEol f.strip l) = .err d) (htf : f.toFile = false) (hdb : f.debug = false) :
+    let r := run lib f true true file
+    r.exit = .panic ∧ r.stdout = (pre.map (fun x => specLine lib f (stripEol f.strip x))).flatten := by
+  intro r
+  have hone := analyzeOne_err lib f _ d hs
+  have hline : analyzeLine lib f (stripEol f.strip l) = ⟨[], [], .panic⟩ := by
+    simp [analyzeLine, hsplit, hone, hdb]
+  have hne : (analyzeLine lib f (stripEol f.strip l)).exit ≠ .ok := by rw [hline]; decide
+  have hrun := runLines_err lib f l post hne pre hpre
+  have hd0 : ∀ t, dumpsLine lib f t = [] := by intro t; simp [dumpsLine, hdb]
+  refine ⟨?_, ?_⟩
+  · simp [r, run, htf, hlines, hrun, exitOf_append_single, hline]
+  · simp [r, run, htf, hlines, hrun, List.map_map, Function.comp_def, hd0, hline]
+
+/-- **`-o` and `-d` do not change what is delivered**: for EVERY input and library behaviour (errors included) the file
+written with `-o` (with or without `-d`) is byte for byte the stdout of the plain run, the exit status is the same, and
+with `-o` but without `-d` nothing is printed on stdout. -/
+theorem output_file_and_debug_do_not_change_results (lib : Lib) (f : Flags) (d : Bool) (file : Bytes) :
+    let plain := run lib { f with debug := false, toFile := false } true true file
+    let r := run lib { f with debug := d, toFile := true } true true file
+    r.file = some plain.stdout ∧ r.exit = plain.exit ∧ (d = false → r.stdout = []) := by
+  intro plain r
+  obtain ⟨h1, h2, h3⟩ := runLines_congr lib lib { f with debug := d, toFile := true } { f with debug := false, toFile := false }
+    rfl rfl rfl rfl (fun _ => rfl) (fun _ => rfl) (lines file)
   refine ⟨?_, ?_, ?_⟩
-  · intro h; simp [analyzeLine, h]
-  · intro h ss hs; simp [analyzeLine, h, hs]
-  · intro h; simp [analyzeLine, h]
+  · simp only [r, plain, run]
+    simp only [Bool.not_true, Bool.false_eq_true, if_false, Bool.and_false, if_true, Option.some.injEq]
+    rw [h1]
+    have : ∀ (evs : List Emit), (∀ e ∈ evs, e.dumps = []) → (evs.map (fun e => e.dumps ++ e.outs)) = evs.map (·.outs) := by
+      intro evs h; apply List.map_congr_left; intro e he; simp [h e he]
+    rw [this]
+    exact runLines_nodebug_dumps lib _ rfl (lines file)
+  · simp only [r, plain, run]
+    simp [h2]
+  · intro hd
+    subst hd
+    simp only [r, run]
+    simp only [Bool.not_true, Bool.false_eq_true, if_false, Bool.and_false, if_true]
+    exact flatten_map_nil _ _ (runLines_nodebug_dumps lib _ rfl (lines file))
+
+/-- **Only the ALL-FIELDS answers of the library reach the output**: two libraries that agree on sentence splitting and
+on the analysis with `InfoSubset::all()` give the same run, whatever they answer for any other subset (in particular for
+the subset `SudachiOutput::subset()` declares, which for `--wakati` is empty: `outputSubset`). -/
+theorem cli_subset_is_full (lib lib' : Lib) (f : Flags) (i o : Bool) (file : Bytes)
+    (ht : ∀ t, lib.tokenize subsetAll t = lib'.tokenize subsetAll t) (hsp : ∀ t, lib.split t = lib'.split t) :
+    run lib f i o file = run lib' f i o file ∧ cliSubset f = subsetAll ∧ (f.wakati = true → outputSubset f = 0) := by
+  obtain ⟨_, _, h3⟩ := runLines_congr lib lib' f f rfl rfl rfl rfl ht hsp (lines file)
+  refine ⟨?_, rfl, ?_⟩
+  · simp only [run]; rw [h3 rfl]
+  · intro h; simp [outputSubset, h]
+
+/-- **A file that cannot be opened**: the input is opened first, the output second, both before the dictionary is
+loaded; either failure is a panic (status 101) with nothing written and — for a missing input — no output file created. -/
+theorem open_failure (lib : Lib) (f : Flags) (o : Bool) (file : Bytes) :
+    run lib f false o file = ⟨[], none, .panic⟩ ∧ (f.toFile = true → run lib f true false file = ⟨[], none, .panic⟩) := by
+  constructor
+  · simp [run]
+  · intro h; simp [run, h]
 
 /-- an empty analysis prints `EOS` alone in the column format and an empty line with `--wakati` -/
 theorem empty_analysis_output (all : Bool) :
@@ -110,5 +245,135 @@ example : lines [97, 10, 10, 98, 13, 10, 99] = [[97, 10], [10], [98, 13, 10], [9
     (lines [97, 10, 10, 98, 13, 10, 99]).map stripEolFix = [[97], [], [98], [99]] ∧
     (lines [97, 10, 10, 98, 13, 10, 99]).map stripEolCur = [[97], [10], [98], [99]] := by
   decide
+
+/-- non-vacuity of `cli_output_is_library_output` / `cli_stops_at_first_error*`: a library that accepts `a`, rejects `b` -/
+def exLib : Lib where
+  split := fun t => if t = [97, 46, 98] then [[97, 46], [98]] else [t]
+  tokenize := fun _ t => if t = [98] then .err [33] else .ok [⟨t, [[80]], t, t, t, 0, [], false⟩] [100, 10]
+
+example : (run exLib ⟨true, false, .default, .fix, false, false⟩ true true [97, 10, 99, 10]).exit = .ok ∧
+    (run exLib ⟨true, false, .default, .fix, false, false⟩ true true [97, 10, 99, 10]).stdout = [97, 10, 99, 10] := by decide
+example : run exLib ⟨true, false, .default, .fix, false, false⟩ true true [99, 10, 97, 46, 98, 10, 99, 10] =
+    ⟨[99, 10, 97, 46, 10], none, .panic⟩ := by decide
+example : run exLib ⟨true, false, .none, .fix, false, false⟩ true true [99, 10, 98, 10, 99, 10] = ⟨[99, 10], none, .panic⟩ := by decide
+/-- `-d` on stdout: dumps of the line first, then its results; `-d -o`: dumps on stdout, results in the file -/
+example : run exLib ⟨true, false, .default, .fix, true, false⟩ true true [97, 10] = ⟨[100, 10, 97, 10], none, .ok⟩ ∧
+    run exLib ⟨true, false, .default, .fix, true, true⟩ true true [97, 10] = ⟨[100, 10], some [97, 10], .ok⟩ := by decide
+
+/-! ## Python glue (`Model/PyGlue.lean`) -/
+open PyGlue in
+/-- **"No crash", over the model of the argument handling**: whatever Python passes — any subscript (negative, out of
+range, a slice, a string, an int beyond `isize`), a `Morpheme` whose list was reused for a shorter or another result, byte
+offsets that are no character boundary, `out=` the morpheme's own list, a mode that is no mode, an unknown field name,
+path totals whose difference leaves `i32` — every modelled entry point answers with a value, a Python exception or
+(stale objects) an unspecified value/exception; none of them returns `crash`.  PARTIAL for the real extension: that a Rust
+panic is turned into `PanicException` by PyO3 and that the `unsafe` lifetime extension of `PyMorpheme::morph` is sound are
+exercised by the session runs (the interpreter must answer every call and exit normally), not proved. -/
+theorem py_never_crashes :
+    (∀ len a, getitem len a ≠ .crash) ∧ (∀ n i st v, access n i st v ≠ .crash) ∧ (∀ t bb be, offsets t bb be ≠ .crash) ∧
+    (∀ a, (split a).1 ≠ .crash) ∧ (∀ mo mb fl, create mo mb fl ≠ .crash) ∧ (∀ ts, internalCost ts ≠ .crash) := by
+  refine ⟨?_, ?_, ?_, ?_, ?_, ?_⟩
+  · intro len a; cases a <;> simp only [getitem] <;> (repeat' split) <;> simp
+  · intro n i st v; simp only [access]; split <;> (try split) <;> simp
+  · intro t bb be; simp only [offsets]; split <;> simp
+  · intro a; simp only [split]; repeat' split
+    all_goals simp
+  · intro mo mb fl; simp only [create]; split <;> (try split) <;> simp
+  · intro ts; cases ts with
+    | nil => simp [internalCost]
+    | cons a r => simp only [internalCost]; (repeat' split) <;> simp
+
+open PyGlue in
+/-- **`MorphemeList[i]` is Python sequence indexing for ints and an exception for everything else** (slices are not
+supported), and iteration yields exactly `len` items. -/
+theorem getitem_spec (len : Nat) (i : Int) :
+    (0 ≤ i → i < len → getitem len (.int i) = .val (toString i)) ∧
+    (i < 0 → 0 ≤ i + len → getitem len (.int i) = .val (toString (i + len))) ∧
+    ((len : Int) ≤ i ∨ i + len < 0 → getitem len (.int i) = .exc "IndexError") ∧
+    getitem len .other = .exc "TypeError" ∧ getitem len .huge = .exc "OverflowError" ∧ (iterate len).length = len := by
+  refine ⟨?_, ?_, ?_, rfl, rfl, by simp [iterate]⟩
+  · intro h0 h1
+    have : ¬ i < 0 := by omega
+    simp only [getitem, this, if_false]
+    rw [if_neg (by intro h; rcases h with h | h <;> omega)]
+  · intro h0 h1
+    simp only [getitem, h0, if_true]
+    rw [if_neg (by intro h; rcases h with h | h <;> omega)]
+  · intro h
+    simp only [getitem]
+    by_cases hn : i < 0
+    · simp only [hn, if_true]; rw [if_pos (by omega)]
+    · simp only [hn, if_false]; rw [if_pos (by omega)]
+
+open PyGlue EditM in
+/-- **`Morpheme.begin()/end()` are CODE-POINT offsets: the conversion is the one C08 describes.**  For byte offsets
+`bb`, `be` of the Rust API that are character boundaries of the original text `t` (C08 `m2o_inv`: every morpheme offset
+is one), Python reports the number of code points of `t` before `bb`, before `be`, and `len(m)` = their difference —
+by `C08.origB2C_counts`, the table `begin_c/end_c` consult. -/
+theorem py_offsets_are_codepoints (t : List Nat) (hne : 0 < nchars t) (bb be : Nat) (hb : BoOf t bb) (he : BoOf t be) :
+    offsets t bb be = .val (toString (nchars (t.take bb)) ++ ":" ++ toString (nchars (t.take be)) ++ ":" ++
+      toString (nchars (t.take be) - nchars (t.take bb))) := by
+  simp [offsets, EditM.origB2C_counts t hne bb hb, EditM.origB2C_counts t hne be he]
+
+open PyGlue in
+/-- **`Morpheme.split(mode, out, add_single)` list handling**: with a valid mode, a live morpheme and `out` not its own
+list, the returned list holds the declared units when there are any, else the morpheme itself unless `add_single=False`
+(the default is True), else nothing — and a given `out` list is cleared and holds exactly that; `out=` the morpheme's own
+list and an invalid mode are Python exceptions that leave `out` untouched. -/
+theorem split_list_handling (a : SplitArgs) :
+    (a.modeOk = true → a.out ≠ .own → a.indexOk = true → a.stale = false →
+      split a = (if a.nsplits ≠ 0 then (.val (toString a.nsplits), .filled a.nsplits)
+                 else if a.addSingle = some false then (.val "0", .cleared) else (.val "1", .filled 1))) ∧
+    (a.modeOk = true → a.out = .own → split a = (.exc "Exception", .untouched)) ∧
+    (a.modeOk = false → split a = (.exc "SudachiError", .untouched)) := by
+  refine ⟨?_, ?_, ?_⟩
+  · intro h1 h2 h3 h4
+    simp only [split, h1, h2, h3, h4]
+    by_cases hn : a.nsplits ≠ 0
+    · simp [hn]
+    · simp only [hn]
+      cases hadd : a.addSingle with
+      | none => simp [addSingleOf]
+      | some b => cases b <;> simp [addSingleOf]
+  · intro h1 h2; simp [split, h1, h2]
+  · intro h1; simp [split, h1]
+
+open PyGlue in
+/-- **`Dictionary.create(fields=…)`**: no `fields` means all fields; every documented name maps to its `InfoSubset` bit
+(`pos` and `pos_id` to the same one) and the tokenizer receives their union, closed by `set_subset` (a form pulls in the
+surface, a split the head-word length, the mode its own split); an unknown name is a `SudachiError`. -/
+theorem fields_subset :
+    parseFields none = some 1023 ∧
+    (∀ names, (∃ n ∈ names, fieldBit n = none) → ∀ mb, create true mb (some names) = .exc "SudachiError") ∧
+    parseFields (some ["pos", "pos_id"]) = some 4 ∧ parseFields (some []) = some 0 ∧
+    create true 64 (some ["dictionary_form", "pos"]) = .val "87" ∧ create true 0 none = .val "1023" := by
+  refine ⟨rfl, ?_, by decide, by decide, by decide, by decide⟩
+  intro names ⟨n, hn, hb⟩ mb
+  have : Wire.allSome (names.map fieldBit) = none := by
+    induction names with
+    | nil => cases hn
+    | cons x rest ih =>
+      simp only [List.map_cons]
+      cases hx : fieldBit x with
+      | none => rfl
+      | some v =>
+        simp only [Wire.allSome]
+        have : n ∈ rest := by
+          rcases List.mem_cons.mp hn with rfl | h
+          · rw [hb] at hx; cases hx
+          · exact h
+        rw [ih this]; rfl
+  simp [create, parseFields, this]
+
+/-- non-vacuity (Python glue): `あい` = 6 bytes; byte offsets 3..6 are characters 1..2; a morpheme without units -/
+example : PyGlue.offsets [0xe3, 0x81, 0x82, 0xe3, 0x81, 0x84] 3 6 = .val "1:2:1" := by decide
+example : EditM.BoOf [0xe3, 0x81, 0x82, 0xe3, 0x81, 0x84] 3 := Or.inr ⟨by decide, by decide⟩
+example : PyGlue.split ⟨true, .other, none, true, 0, false⟩ = (.val "1", .filled 1) ∧
+    PyGlue.split ⟨true, .other, some false, true, 0, false⟩ = (.val "0", .cleared) ∧
+    PyGlue.split ⟨true, .own, none, true, 2, false⟩ = (.exc "Exception", .untouched) ∧
+    PyGlue.split ⟨true, .other, none, false, 2, false⟩ = (.exc "PanicException", .cleared) := by decide
+example : PyGlue.getitem 3 (.int (-1)) = .val "2" ∧ PyGlue.getitem 3 (.int 3) = .exc "IndexError" ∧ PyGlue.getitem 0 (.int 0) = .exc "IndexError" := by decide
+/-- the split-made total `i32::MAX` against a negative first total: overflow -/
+example : PyGlue.internalCost [-246, 2147483647] = .exc "PanicException" ∧ PyGlue.internalCost [5, 9, 20] = .val "15" := by decide
 
 end C19
